@@ -535,7 +535,7 @@ func runC10(p *core.Program, r *core.Report) {
 			// unconditional within the loop: no per-entry decision
 			decs := 0
 			for _, g := range path.Guards(fn, st.Block()) {
-				ib := g.If.Block()
+				ib := g.Block()
 				if len(path.NaturalLoop(ib)) > 0 {
 					continue // the loop's own continuation test
 				}
